@@ -95,7 +95,8 @@ def probe_config(arg):
         p = line.split()
         if p[0] == "counts":
             continue
-        kind, i, name, addr = p[0], int(p[1]), p[2], int(p[3], 16)
+        kind, i, name = p[0], int(p[1]), p[2]
+        addr = 0 if p[3] == "(nil)" else int(p[3], 16)
         seen[kind].append(name)
         syms = addr2sym.get(addr, [])
         st["bindings"] += 1
@@ -158,7 +159,10 @@ def e2e(arg):
         for i, n in enumerate(names):
             v = vs.get(i)
             if v is None:
-                raise Harness("no result for data source %s" % n)
+                ch = [e for e in res.events if e["ev"] == "CHILD"]
+                F.violation("C13:e2e:crash-calling-name", "in a build with %s, calling data source %r by name never returned (process status %s): the name is bound to something that is not its implementation" % (
+                    extra[:5], n, ch[:1] and (ch[0]["signal"], ch[0]["status"])), wit)
+                break
             on = n in ds_on or n in ("failure", "noop")
             if n == "snoopy_threads" and not ts:
                 on = False
